@@ -659,3 +659,66 @@ def ob_valid_witnesses(pid="C05", label="C05.f", big=False):
                  engine="z3 picks members of size-constrained valid-file languages; each is replayed through the real CLI (witness replay, not exhaustive)",
                  encodes=["cminx.main -> Documenter (real lexer, parser, error strategy, walker, renderer)"], symbolic="the concrete text is chosen by z3",
                  bound="one witness per size class")
+
+
+# ------------------------------------------------------------------------------------------------ second opinion (other solvers)
+def ob_second_opinion(pid, D, label="E2"):
+    """every regex query this run has put to z3 5.x (python API) is printed as portable SMT-LIB2 by rx.to_smt and decided again by two
+    independent solver binaries; an answer that contradicts the first one, or an '(error' line, makes the obligation INCONCLUSIVE
+    (HARNESS_ERROR if both other solvers contradict). A timeout of a second solver is only counted."""
+    def fn(work):
+        import subprocess, shutil, concurrent.futures as cf
+        c = ctx(D)
+        q = c["q"]
+        asked = [(n, r, g) for (n, r, g) in q.asked if r in ("sat", "unsat")]
+        t0 = time.time()
+        d = os.path.join(work, "smt2")
+        os.makedirs(d, exist_ok=True)
+        import sys
+        solvers = [(nm, cmd) for (nm, cmd) in (("z3-4.8.12", ["/usr/bin/z3", "-T:20"]),
+                                               ("cvc5-1.4.0", [sys.executable, os.path.join(os.path.dirname(os.path.abspath(__file__)), "cvc5run.py"), "10000"])) if os.path.exists(cmd[0])]
+        if not solvers:
+            return dict(verdict=vf.INCONCLUSIVE, paths=0, detail="no second solver binary installed")
+        files = []
+        seen = set()
+        for i, (n, r, g) in enumerate(asked):
+            txt = "(set-logic QF_S)\n(declare-const x String)\n(assert (str.in_re x %s))\n(check-sat)\n" % rx.to_smt(g)
+            if txt in seen:
+                continue
+            seen.add(txt)
+            f = os.path.join(d, "q%04d.smt2" % i)
+            open(f, "w").write("; " + n.replace("\n", " ") + "\n" + txt)
+            files.append((n, r, f))
+
+        def run(job):
+            (n, r, f), (nm, cmd) = job
+            try:
+                p = subprocess.run(cmd + [f], capture_output=True, text=True, timeout=40)
+                out = (p.stdout + p.stderr).strip().split("\n")
+            except subprocess.TimeoutExpired:
+                out = ["timeout"]
+            first = out[0].strip().split(" ")[-1] if out else ""
+            err = any("(error" in l for l in out)
+            return n, r, nm, ("error" if err else first if first in ("sat", "unsat") else "no answer")
+        jobs = [(fl, sv) for fl in files for sv in solvers]
+        with cf.ThreadPoolExecutor(max_workers=max(2, (os.cpu_count() or 4) // 2)) as ex:
+            res = list(ex.map(run, jobs))
+        agree = {nm: 0 for (nm, _) in solvers}
+        silent = {nm: 0 for (nm, _) in solvers}
+        contra, errors = [], []
+        for (n, r, nm, a) in res:
+            if a == r: agree[nm] += 1
+            elif a == "error": errors.append((n, nm))
+            elif a in ("sat", "unsat"): contra.append((n, nm, r, a))
+            else: silent[nm] += 1
+        shutil.rmtree(d, ignore_errors=True)
+        det = "%d distinct queries; agreeing answers %s; no answer within the limit %s" % (len(files), agree, silent)
+        if contra:
+            return dict(verdict=vf.INCONCLUSIVE, paths=len(res), detail=det + "; CONTRADICTING answers: %r" % contra[:5])
+        if errors:
+            return dict(verdict=vf.INCONCLUSIVE, paths=len(res), detail=det + "; solver errors: %r" % errors[:5])
+        return dict(verdict=vf.HOLDS, paths=len(res), cpu_s=time.time() - t0, detail=det,
+                    samples=[{"second_solver": nm, "agree": agree[nm], "no_answer": silent[nm]} for (nm, _) in solvers])
+    return vf.FN("%s second opinion: every regex query of this run decided again by z3 4.8.12 and cvc5 1.4.0 from portable SMT-LIB2" % label, fn,
+                 engine="/usr/bin/z3 4.8.12 (binary) and cvc5 1.4.0 (wheel, lib/cvc5run.py) on SMT-LIB2 printed by rx.to_smt (QF_S, one string variable, re.comp/re.inter)",
+                 encodes=ENC_LEX, symbolic="as the queries re-decided", bound="per query: 20 s (z3 4.8.12), 10 s (cvc5); an unanswered query is counted, not a failure")
